@@ -8,7 +8,7 @@ ASSUMPTIONS = ["formula vocabulary of Exec/Model.v (integers/None, calls, refere
 
 
 def run(tier, seed, rng):
-    return E.run_exec_property("C05", tier, rng, 150, 3000, {'p_raise': 0.15, 'p_try': 0.25, 'maxdepth': (3, 12), 'p_none': 0.08, 'recursion': 0.5}, {'eval': 8, 'setf': 2}, (8, 30), ORACLES,
+    return E.run_exec_property("C05", tier, rng, 150, 3000, {'p_raise': 0.15, 'p_try': 0.25, 'maxdepth': (3, 12), 'p_none': 0.08, 'recursion': 0.5}, {'eval': 8, 'setf': 2, 'tracecycle': 1}, (8, 30), ORACLES,
         'worlds with raising expressions (ValueError, KeyError, ZeroDivisionError, TypeError), None results, low recursion limits (3-12) and try/except; evaluations interleaved with formula repairs' + "; non-trivial = at least one failing and one succeeding formula execution; distinct by JSON of the case",
         lambda c, r: sum(1 for ob in r['obs'] if ob['out'][0]=='err')>=1 and any(ob['out'][0]=='val' and ob['log'] for ob in r['obs']), diff=None)
 
